@@ -240,7 +240,15 @@ func (s *c02Seq) step() bool {
 		}
 	case 11:
 		if m := s.pick(func(n *canon.Node) bool { return isMapN(n) || isSetN(n) }); m != nil {
-			return s.bind(fmt.Sprintf("(dissoc %s %s)", m.name, s.key()), "dissoc", false, m)
+			switch r.Intn(3) {
+			case 0:
+				return s.bind(fmt.Sprintf("(dissoc %s %s)", m.name, s.key()), "dissoc", false, m)
+			case 1:
+				// first key absent, later ones possibly present
+				return s.bind(fmt.Sprintf("(dissoc %s :absent-key %s %s)", m.name, s.key(), s.key()), "dissoc-multi", false, m)
+			default:
+				return s.bind(fmt.Sprintf("(dissoc %s %s \"absent\" %s)", m.name, s.key(), s.key()), "dissoc-multi", false, m)
+			}
 		}
 	case 12, 13:
 		if v := s.pick(func(n *canon.Node) bool { return isVecN(n) && len(n.L) > 0 }); v != nil {
